@@ -1,5 +1,5 @@
 (* Properties/C14.v — credentials go where the security scheme says, read from documented env vars. *)
-From LN Require Import Model.Emit Sem.Request Proofs.EmitP.
+From LN Require Import Model.Emit Sem.Request Proofs.EmitP Proofs.NamesP.
 
 (* every request module passes the request through `authenticate` iff the document declares security *)
 Theorem C14_every_request : forall h cfg o c, request_file h cfg o = Ok c ->
@@ -52,6 +52,19 @@ Theorem C14_env_var_name : forall svc v, split_words svc <> [] -> split_words v 
   qualified_env_var svc v = screaming_snake svc ++ lit "_" ++ screaming_snake v.
 Proof. exact qualified_env_var_split. Qed.
 Print Assumptions C14_env_var_name.
+
+(* the documented variable name can be set and read: non-empty, [A-Z0-9_] only, hence neither '=' nor NUL
+   (std::env::var answers Err for those without consulting the environment), for every service name and scheme
+   field over [A-Za-z0-9_ -] *)
+Theorem C14_env_var_name_shape : forall svc v,
+  forallb ad svc = true -> forallb ad v = true -> existsb is_alnum svc = true ->
+  nonempty (qualified_env_var svc v) = true /\ forallb ucu (qualified_env_var svc v) = true /\
+  contains_char "="%char (qualified_env_var svc v) = false /\ contains_char "000"%char (qualified_env_var svc v) = false.
+Proof. exact qualified_env_var_shape. Qed.
+Print Assumptions C14_env_var_name_shape.
+Example C14_env_var_name_shape_nonvacuous :
+  forallb ad (lit "Pet-Store") = true /\ forallb ad (lit "X-Api-Key-2") = true /\ existsb is_alnum (lit "Pet-Store") = true.
+Proof. vm_compute. repeat split; reflexivity. Qed.
 
 Theorem C14_nonvacuous :
   qualified_env_var (lit "PetStore") (lit "X-Api-Key-2") = lit "PET_STORE_X_API_KEY_2" /\
